@@ -328,7 +328,7 @@ func checkC11(r *Run) {
 	var pairs []rt.Pair
 	total := 0
 	for _, m := range bases {
-		if total > r.pick(80, 600) {
+		if total > r.pick(110, 600) {
 			break
 		}
 		be := m()
